@@ -341,6 +341,29 @@ def correspond(ctx, trs, scale):
             ctx.disagreement(cname, {'fn': fn, 'args': args}, 'model (PrimFloat evaluation of the traced DAG, or one of its probed arguments) differs in at least one bit', impl)
 
 
+def hypotheses_met(ctx, trs, n):
+    """how many sampled in-range states satisfy the side conditions (`admissible`) of the single-potential
+    theorems: every divisor of the traced DAG non-zero, every argument of sqrt / ** positive"""
+    import t2thermo as T, IAPWS97 as I
+    rng = random.Random(ctx.seed + 77)
+    for name, gen in (('cowat_off', OR.gen_liquid), ('supst_off', OR.gen_steam)):
+        tr = trs[name]
+        coefs = []
+        for a, _n in tr.coef_arrays:
+            v = getattr(T, a)
+            coefs += [float(x) for x in (v.values() if isinstance(v, dict) else v)]
+        ok = 0
+        for (t, p) in gen(T, I, rng, n):
+            vals, _, _ = TR.eval_dag(tr, [t, p], coefs)
+            good = all(math.isfinite(v) for v in vals)
+            for nd in tr.nodes:
+                if nd[0] == 'div' and vals[nd[2]] == 0.0: good = False
+                if nd[0] == 'sqrt' and not vals[nd[2]] > 0.0: good = False
+                if nd[0] == 'pow' and not vals[nd[2]] > 0.0: good = False
+            ok += 1 if good else 0
+        ctx.hyp_met['%s_admissible(of %d in-range states)' % (name.split('_')[0], n)] = ok
+
+
 def run(ctx):
     warnings.simplefilter('ignore')
     ctx.rule = ('states: liquid 0.01..350 degC from the saturation pressure to 100 MPa, steam 0.01..800 degC below saturation / B23 / 100 MPa '
@@ -362,16 +385,24 @@ def run(ctx):
     ctx.stage()
     scale = 5 if ctx.thorough else 1
     tt = translate(ctx)
+    ctx.log('translated' if tt is not None else 'translation refused')
     if tt is not None:
-        ctx.coq_build(props=('Props.v', 'Props2.v'), timeout=1500 if ctx.thorough else 600)
+        # thorough tier additionally proves that the hypothesis `admissible` of the single-potential theorems
+        # holds at two concrete states (interval arithmetic on every divisor of the DAGs: ~5 min)
+        extra = [os.path.join(vf.COQDIR, 'C15', 'thorough', 'Admissible.v')] if ctx.thorough else []
+        ctx.coq_build(props=('Props.v', 'Props2.v', 'Props3.v'), timeout=1700 if ctx.thorough else 600, extra_files=extra)
+        ctx.log('coq build done: %d theorem(s)' % len([t for t in ctx.theorems if t[1] is not None]))
         try:
             correspond(ctx, tt[2], scale)
+            ctx.log('correspondence done')
+            hypotheses_met(ctx, tt[2], 400 * scale)
         except Exception as e:
             import traceback; traceback.print_exc()
             ctx.proof_failures.append({'kind': 'correspondence', 'name': 'correspondence-run', 'detail': repr(e)})
             ctx.log('correspondence crashed', repr(e))
     import t2thermo as T, IAPWS97 as I
     OR.sweep(T, I, ctx, scale)
+    ctx.log('oracle sweep done')
     for k, v in ctx.oracle.items():
         for kk, vv in list(v.get('distribution', {}).items()):
             if not isinstance(vv, (dict, str, int)): v['distribution'][kk] = float(vv)
